@@ -95,6 +95,23 @@ CHECKS.update({
     technique="Coq proof (field identities, generic gate theorem) + correspondence incl. model-vs-batch exact check",
     ref="DESIGN.md section 7 C15"),
 })
+CHECKS.update({
+ "C17": dict(
+    text="Proof (Coq, axiom-free): rows_/columns_ as built from the row and column labels have one row per (row-cluster, column-cluster) pair and the widths of the matrix, every cell belongs to exactly one bicluster (the one of its row and column cluster, which exists), membership agrees with the labels. Tied to /repo by comparing the real rows_/columns_ after BARTMAP.fit with the Gallina construction from the implementation's own labels; shapes, partition, membership and 'column clustering = column module alone on X^T' are checked on the implementation for square and non-square matrices and all eta.",
+    note="Trusted: Coq kernel, hand model + correspondence. The row veto (Pearson correlation through scipy) is not modelled; fit fails on non-square matrices and on singleton column clusters (two known findings), so the partition theorem is exercised on the fits that complete.",
+    technique="Coq proof (list combinatorics) + correspondence",
+    ref="DESIGN.md section 7 C17"),
+ "C18": dict(
+    text="Proof (Coq, exact reals): normalisation maps into [0,1] and de_normalize inverts it column by column for non-constant columns, de_compliment_code inverts compliment_code, complement-coded data in the unit cube passes Fuzzy ART's validation, later prepare_data calls re-use the first call's bounds, and a batch failing validation makes fit/partial_fit/predict return no state. Tied to /repo by histories with interleaved invalid batches (out of range, wrong width, not complement-coded, non-binary): the model's validation must reject exactly the batches the implementation rejects and the history must continue identically; prepare/restore round trips (11 estimator kinds, scales 1e-3..250, negative offsets) and full snapshots around rejected calls (elementary and compound estimators) are checked on the implementation.",
+    note="Trusted: Coq kernel + stdlib real axioms; 'to numerical precision' = exact in the theorem, 1e-9 on the implementation; ART1 histories are implementation-side only (non-dyadic bottom-up weights).",
+    technique="Coq proof + correspondence with malformed-input stream",
+    ref="DESIGN.md section 7 C18"),
+ "C20": dict(
+    text="Proof (Coq, axiom-free, generic in the totally pre-ordered distance type): VAT's index vector is a permutation of all samples, it starts at the row of the first largest entry of the matrix, every iteration appends an unvisited sample at minimal distance from the visited set, and the returned matrix is the input re-ordered by the permutation. Tied to /repo by the exact correspondence on precomputed matrices (duplicates, equidistant points, asymmetric input); the Prim property is also checked on the implementation through pdist with the default and a custom metric.",
+    note="Trusted: Coq kernel, hand model + correspondence; scipy pdist/squareform as given; square input.",
+    technique="Coq proof (permutation invariant, arg-min specification) + correspondence",
+    ref="DESIGN.md section 7 C20"),
+})
 NOT_YET = {}
 def main():
     props = [json.loads(l) for l in open(os.path.join(V, "properties.jsonl"))]
